@@ -177,6 +177,30 @@ impl<'a> Exec<'a> {
     }
 }
 
+/// the packet followed by bytes that do not belong to it (deterministic in the packet)
+fn with_tail(pkt: &[u8]) -> Vec<u8> {
+    let mut h = H64::new();
+    h.b(pkt);
+    let x = h.0;
+    let n = match (x >> 16) % 16 {
+        0 => 4000 + (x % 1000) as usize,
+        1 => 1,
+        _ => 1 + (x % 40) as usize,
+    };
+    let mut v = pkt.to_vec();
+    match (x >> 8) % 5 {
+        0 => v.extend(std::iter::repeat(0xFFu8).take(n)),
+        1 => v.extend(std::iter::repeat(0x00u8).take(n)),
+        2 => {
+            // looks like another packet / like extension ids
+            let pat = [0xC0u8, 0x05, 0x01, 0x23, 0x00, 0x81, 0x05, 0xFF];
+            v.extend((0..n).map(|i| pat[i % pat.len()]));
+        }
+        _ => v.extend(pdu_bytes(n, x)),
+    }
+    v
+}
+
 impl Scenario for Flow {
     fn name(&self) -> &'static str {
         "flow"
@@ -252,6 +276,7 @@ impl Scenario for Flow {
         };
         let mut rx = RxNode::new(slots, minsize, table.clone(), keep_crc);
         let mut walker = if mode == 1 { Some(RxNode::new(slots, minsize, table.clone(), false)) } else { None };
+        let trail = mode == 0 && p.cfg.get_u("trail") == 1;
         let mut bare = if mode == 0 && p.cfg.get_u("shadow") == 1 { Some(Bare::new(slots, minsize, table.clone())) } else { None };
         let mut accepted_bufs = 0usize;
         for _ in 0..nbuf {
@@ -304,7 +329,22 @@ impl Scenario for Flow {
                     let g = rx.led.borrow();
                     g.n_inside() - g.n_attached()
                 };
-                let r = rx.decap(pkt);
+                // "presented alone or followed by further bytes": in `trail` runs a clean packet is followed by bytes
+                // that are not part of it (derived from the packet, no PRNG); every expectation below stays the one
+                // of the packet alone
+                let trailed: Option<Vec<u8>> = if trail && clean { Some(with_tail(pkt)) } else { None };
+                let fed: &[u8] = trailed.as_deref().unwrap_or(pkt);
+                if trailed.is_some() {
+                    ex.st.inc("probe.packet_followed_by_further_bytes");
+                    let pk2 = rx.peek(fed);
+                    ex.st.inc("lib_calls");
+                    if format!("{:?}", pk2) != format!("{:?}", pk) {
+                        if ex.report(Violation::new("C19", "C19.peek_depends_on_following_bytes", hdr.map(|h| h.0.name()).unwrap_or("?").to_string(), format!("peek alone {:?}, followed by {} more bytes {:?}", pk, fed.len() - pkt.len(), pk2))) {
+                            stop!();
+                        }
+                    }
+                }
+                let r = rx.decap(fed);
                 ex.st.inc("lib_calls");
                 let (obs, bufref) = observe(&r);
                 ex.log.s(obs.class);
@@ -320,7 +360,7 @@ impl Scenario for Flow {
                     ex.st.cov("transition", th.0);
                 }
                 if let Some(b) = bare.as_mut() {
-                    let rb = b.decap(pkt);
+                    let rb = b.decap(fed);
                     ex.st.inc("lib_calls");
                     let (ob, _) = observe(&rb);
                     if ob != obs {
@@ -1340,8 +1380,10 @@ pub mod gen {
         // a shadow receiver on the bare types; the memory's minimum storage size is the buffer size, or well below it
         let k = (slots * 7 + maxpdu * 13 + nbuf * 3) as u64;
         let shadow = if mode == 0 && k % 3 == 0 { 1 } else { 0 };
+        // two lock-step runs in five hand every clean packet to the receiver followed by further bytes
+        let trail = if mode == 0 && k % 5 < 2 { 1 } else { 0 };
         let minsize = if k % 4 == 1 { (maxpdu / 3).max(1) } else { maxpdu };
-        let mut o = Op::new("cfg").u("slots", slots as u64).u("maxpdu", maxpdu as u64).u("nbuf", nbuf as u64).u("mode", mode).u("shadow", shadow).u("minsize", minsize as u64);
+        let mut o = Op::new("cfg").u("slots", slots as u64).u("maxpdu", maxpdu as u64).u("nbuf", nbuf as u64).u("mode", mode).u("shadow", shadow).u("minsize", minsize as u64).u("trail", trail);
         if !table.entries.is_empty() {
             o = o.h("table", enc_table(table));
         }
